@@ -296,3 +296,94 @@ def index_width_lint(chk, repo, rule, paths):
                            mod.where(lp), key=f'{rule}|{rel}::{fn.name}|{idx_name}|{shown[:40]}', method='declared C types of loop index and bound')
     chk.note_analysed('typed range-loops', n_loops)
     return n_loops
+
+
+# ---------------------------------------------------------------------------------------------- dimensional homogeneity of a function's own arithmetic (unit inference)
+def unit_lint(chk, repo, rule, mod, func, sources, label, assume=None):
+    """Unit inference over the statements of `func`: variables get a unit (exponents of kg, m, s) from the parameters named in `sources` and from what they are computed
+    from (products, quotients, element reads, copies; anything else is 'unknown' and checked nowhere).  A sum, difference or comparison whose two sides have *known, different*
+    units -- in particular a dimensional quantity against a non-zero numeric literal -- is dimensionally inhomogeneous: the result then depends on the unit system the function
+    happens to be working in (the solver runs the same code on dimensional and on non-dimensionalised inputs)."""
+    UNK = None
+    ONE = (0, 0, 0)
+
+    def mul(a, b, sign=1):
+        if a is UNK or b is UNK: return UNK
+        return tuple(x + sign * y for x, y in zip(a, b))
+    units = {k: tuple(v) for k, v in sources.items()}
+    ptrs = set(sources)
+
+    def unit_of(e):
+        if isinstance(e, ast.Constant):
+            if isinstance(e.value, (int, float)) and not isinstance(e.value, bool):
+                return ONE if e.value != 0 else 'zero'
+            return UNK
+        if isinstance(e, ast.Name):
+            return units.get(e.id, UNK)
+        if isinstance(e, ast.Subscript):
+            return unit_of(e.value)
+        if isinstance(e, ast.UnaryOp) and isinstance(e.op, (ast.USub, ast.UAdd)):
+            return unit_of(e.operand)
+        if isinstance(e, ast.BinOp):
+            # front-end artefacts: __cast__('T') * x and __addr__ * x are x
+            if isinstance(e.left, ast.Call) and isinstance(e.left.func, ast.Name) and e.left.func.id in ('__cast__',): return unit_of(e.right)
+            if isinstance(e.left, ast.Name) and e.left.id == '__addr__': return unit_of(e.right)
+            a, b = unit_of(e.left), unit_of(e.right)
+            if a == 'zero': a = b if isinstance(e.op, (ast.Add, ast.Sub)) else ONE
+            if b == 'zero': b = a if isinstance(e.op, (ast.Add, ast.Sub)) else ONE
+            if isinstance(e.op, ast.Mult): return mul(a, b)
+            if isinstance(e.op, ast.Div): return mul(a, b, -1)
+            if isinstance(e.op, (ast.Add, ast.Sub)):
+                return a if (a is not UNK and a == b) else UNK
+            if isinstance(e.op, ast.Pow) and isinstance(e.right, ast.Constant) and isinstance(e.right.value, int) and a is not UNK:
+                return tuple(x * e.right.value for x in a)
+            return UNK
+        return UNK
+
+    def show(u):
+        if u == ONE: return 'dimensionless'
+        return ' '.join(f'{n}^{p}' if p != 1 else n for n, p in zip(('kg', 'm', 's'), u) if p) or 'dimensionless'
+    # statements on branches the assumed flag values exclude (`if nondimensionalize:` bodies when the dimensional mode is analysed) are left out
+    dead = set()
+    for n in ast.walk(func):
+        if isinstance(n, ast.If) and assume:
+            t = n.test; neg = False
+            if isinstance(t, ast.UnaryOp) and isinstance(t.op, ast.Not): t = t.operand; neg = True
+            if isinstance(t, ast.Name) and t.id in assume:
+                val = bool(assume[t.id]) != neg
+                for st in (n.orelse if val else n.body):
+                    for x in ast.walk(st): dead.add(id(x))
+    live = [n for n in ast.walk(func) if id(n) not in dead]
+    # fixed point over assignments (flow-insensitive; a name bound to different known units becomes unknown)
+    assigns = [n for n in live if isinstance(n, ast.Assign) and len(n.targets) == 1 and isinstance(n.targets[0], ast.Name)]
+    conflict = set()
+    for _ in range(6):
+        changed = False
+        for a_ in assigns:
+            nm = a_.targets[0].id
+            if nm in sources or nm in conflict: continue
+            u = unit_of(a_.value)
+            if u is UNK or u == 'zero': continue
+            if nm in units and units[nm] != u:
+                conflict.add(nm); units.pop(nm, None); changed = True
+            elif nm not in units:
+                units[nm] = u; changed = True
+        if not changed: break
+    bad = []
+    n_checked = 0
+    for n in live:
+        pairs = []
+        if isinstance(n, ast.BinOp) and isinstance(n.op, (ast.Add, ast.Sub)):
+            pairs = [(n.left, n.right)]
+        elif isinstance(n, ast.Compare):
+            seq = [n.left] + list(n.comparators)
+            pairs = list(zip(seq, seq[1:]))
+        for l_, r_ in pairs:
+            a, b = unit_of(l_), unit_of(r_)
+            if a is UNK or b is UNK or a == 'zero' or b == 'zero': continue
+            n_checked += 1
+            if a != b:
+                bad.append(f'line {n.lineno}: `{ast.unparse(n)[:70]}` combines [{show(a)}] with [{show(b)}]')
+    chk.ob(rule, f'{label}: every sum, difference and comparison of quantities with known units is dimensionally homogeneous ({n_checked} checked)', not bad, '; '.join(bad[:3]), mod.where(func),
+           key=f'{rule}|units|{func.name}', method='unit inference over the statements of the function')
+    return n_checked
